@@ -442,6 +442,10 @@ class SymStr:
                 if all(x[0] == "lit" or x[2] in ("int",) for x in p0):
                     return [(OK, mk([("lit", x[1].lower()) if x[0] == "lit" else x for x in p0]), st)]
                 return [(OK, mk(p0), st)]   # atoms: assumed already canonical case
+            if c == "core::str::<impl str>::chars":
+                if is_concrete(p0):
+                    return [(OK, ("abs", "siter", tuple(("char", ch) for ch in concrete(p0)), 0), st)]
+                return [(OK, unk("chars"), st)]
             if c == "core::str::<impl str>::split_whitespace":
                 toks = tokens_ws(p0)
                 if toks is None:
